@@ -217,7 +217,10 @@ Proof.
     rewrite (decorate_hit_any U s p n m a k VRaise e HU G F OK L CLe). cbn.
     split; [exact G|split; [apply same_content_refl|]].
     intros acc v b E. inversion E; subst. exists n. split; [reflexivity|split; [reflexivity|intros; discriminate]].
-  - assert (SOK : forall c, In c (subcalls m (env_of m a k)) -> call_ok U (snd (fst c)) (snd c)).
+  - assert (MC : member_calls s p n m = s).
+    { destruct (find_node_in s p n F) as [Hn0 _]. destruct (g_td U s G n Hn0) as [T _]. unfold member_calls. now rewrite T. }
+    rewrite MC.
+    assert (SOK : forall c, In c (subcalls m (env_of m a k)) -> call_ok U (snd (fst c)) (snd c)).
     { intros c Hc. split; [|now apply (subcalls_sorted m (env_of m a k))].
       intros o Ho. apply SO. unfold sub_objs. apply in_flat_map. now exists c. }
     destruct (run_subcalls_ok U p (subcalls m (env_of m a k)) s n HU G F SOK) as [G1 [SC E]].
